@@ -923,7 +923,9 @@ class SVG:
             updates.append((idx, el, shape))
 
         for idx, el, shape in updates:
-            self._set_element(idx, el, (shape,))
+            # a shape whose box reaches into the viewBox may still have nothing
+            # inside it: then it disappears like the ones dumped in phase 1
+            self._set_element(idx, el, (shape,) if shape.d else ())
 
         # Update the etree
         self._update_etree()
